@@ -1,5 +1,6 @@
 """C09 - no worker outlives its pool; a pool stays usable across runs and restarts."""
 import ast
+import copy
 
 from ..astutil import (split_if, canon, canon_ast, facts_at, conjuncts, guards_of, edge_facts, AnalysisError, dotted, calls_in, last_attr, receiver, norm, is_name, walk_local, is_self_attr,
                        loc, short, parent_map, names_in)
@@ -52,13 +53,21 @@ def run(ctx):
     # _close: one clean-up per worker, all joined
     # the per-worker clean-up job: the closure handed to Thread(target=...) in _close (found by role, not by name)
     targets = [k.value.id for c in calls_in(cl.node) if last_attr(c) == 'Thread' for k in c.keywords if k.arg == 'target' and isinstance(k.value, ast.Name) and k.value.id in cl.nested]
-    ctx.require(targets, 'Pool._close: the per-worker clean-up closure (Thread target) was not found')
-    cw = cl.nested[targets[0]]
+    # ... or a method of the Pool given the worker (and what the closure used to capture) as thread arguments
+    mtargets = [k.value.attr for c in calls_in(cl.node) if last_attr(c) == 'Thread' for k in c.keywords if k.arg == 'target' and isinstance(k.value, ast.Attribute)
+                and isinstance(k.value.value, ast.Name) and k.value.value.id in ('self', pool.name) and k.value.attr in pool.methods]
+    ctx.require(targets or mtargets, 'Pool._close: the per-worker clean-up job (Thread target) was not found')
+    if targets:
+        cw = cl.nested[targets[0]]
+        WV = cw.params[0] if cw.params else 'worker'
+    else:
+        cw = pool.methods[mtargets[0]]
+        ps = [x for x in cw.params if x != 'self']
+        WV = ps[0] if ps else 'worker'
     CWN = cw.name
-    WV = cw.params[0] if cw.params else 'worker'
     ctx.used(cw)
     loops = [n for n in walk_local(cl.node) if isinstance(n, ast.For) and 'self._workers' in norm(n.iter)]
-    ok = bool(loops) and any(last_attr(c) == 'Thread' and any(k.arg == 'target' and is_name(k.value, CWN) for k in c.keywords) for c in calls_in(loops[0])) \
+    ok = bool(loops) and any(last_attr(c) == 'Thread' and any(k.arg == 'target' and (is_name(k.value, CWN) or (isinstance(k.value, ast.Attribute) and k.value.attr == CWN)) for k in c.keywords) for c in calls_in(loops[0])) \
         and any(last_attr(c) == 'start' for c in calls_in(loops[0]))
     ctx.check('R1', 'Pool._close starts one clean-up thread per registered worker', ok, 'Pool._close', 'cleanup-not-per-worker',
               '_close does not start a clean-up for every registered worker', where=loc(cl, cl.node))
@@ -99,6 +108,29 @@ def run(ctx):
           and isinstance(st.value.operand, ast.Call) and last_attr(st.value.operand) == 'wait']
     AL = av[-1] if av else 'alive'
     want = f'{AL} and (force is not False or not graceful)'
+    if ok and cond != want:
+        # the same condition spelled through locals that are bound once (`stopped = w.wait(...)`, `may_terminate = ...`): expand them and compare
+        one = {}
+        for st in walk_local(cw.node):
+            if isinstance(st, ast.Assign) and len(st.targets) == 1 and isinstance(st.targets[0], ast.Name):
+                one.setdefault(st.targets[0].id, []).append(st.value)
+        one = {k: v[0] for k, v in one.items() if len(v) == 1}
+
+        def expand(e, depth=0):
+            e = copy.deepcopy(e)
+
+            class T(ast.NodeTransformer):
+                def visit_Name(self, x):
+                    if x.id in one and depth < 3 and isinstance(x.ctx, ast.Load):
+                        return expand(one[x.id], depth + 1)
+                    return x
+            return T().visit(e)
+        in_body = bool(_terms(esc[0].body))
+        txt2, truth2 = canon(expand(esc[0].test), in_body)
+        cond2 = txt2 if truth2 else f'not ({txt2})'
+        want2 = f'not {WV}.wait(timeout=timeout) and (force is not False or not graceful)'
+        if cond2 == want2:
+            cond, want, AL = cond2, want2, f'not {WV}.wait(timeout=timeout)'
     ctx.check('R1', 'cleanup_worker escalates to terminate() when the worker is still alive and forcing is not disabled', ok and cond == want, 'Pool._close.<cleanup_worker>',
               'escalation-condition:' + str(cond).replace(AL, 'ALIVE'), f'the escalation to terminate() is conditional on `{cond}` instead of `{want}`: '
               'a stuck worker outlives the pool (force=None must not disable the forced termination)', where=loc(cw, esc[0]) if ok else loc(cw, cw.node))
@@ -110,6 +142,8 @@ def run(ctx):
         # alive is computed from wait()
         a = [st for st in walk_local(cw.node) if isinstance(st, ast.Assign) and is_name(st.targets[0], AL) and isinstance(st.value, ast.UnaryOp)]
         ok2 = bool(a) and isinstance(a[-1].value.operand, ast.Call) and last_attr(a[-1].value.operand) == 'wait' and any(k.arg == 'timeout' for k in a[-1].value.operand.keywords)
+        if not ok2 and AL == f'not {WV}.wait(timeout=timeout)':
+            ok2 = True      # the expanded condition tests the negated result of wait(timeout=...) itself
         ctx.check('R1', 'cleanup_worker: `alive` is the negated result of wait(timeout=...)', ok2, 'Pool._close.<cleanup_worker>', 'alive-not-from-wait',
                   '`alive` is not computed from a bounded wait()', where=loc(cw, cw.node))
     # force_args: force passed only if not None
